@@ -80,6 +80,7 @@ RunInit(out, e) ==
    obsolete |-> <<>>,           \* [ck, at] journal offset at which chunk ck became obsolete
    oblig |-> <<>>,              \* [ck, n] chunks that must be gone once write n is flushed and the worker idle
    rejSeen |-> FALSE,
+   bigSeen |-> FALSE,           \* an argument at the integer limits has been passed in this run
    faulted |-> FALSE,
    crashed |-> FALSE,           \* the current directory is a post-crash image not yet reopened
    evmoved |-> FALSE,           \* a boundary update happened since the pending call began
@@ -248,17 +249,17 @@ CheckCache(m, e, o, afterAppend) ==
 
 \* which property a wrong read / state speaks about, by context
 ReadProp(m) ==
-  IF m.rejSeen THEN "C06"
-  ELSE IF m.cfg.ci >= 0 \/ m.cfg.cc >= 0 \/ m.wactive THEN "C07"
+  IF m.cfg.ci >= 0 \/ m.cfg.cc >= 0 \/ m.wactive THEN "C07"
+  ELSE IF m.rejSeen THEN "C06"
   ELSE "C01"
 
 CheckView(m, e, o, prop) ==
   IF o.esr # "ok"
-  THEN Viol(m, IF prop = "C01" THEN ReadProp(m) ELSE prop, "read_error", e, [esr |-> o.esr, want |-> m.ref.log])
+  THEN Viol(m, IF prop \in {"C01", "C06"} THEN ReadProp(m) ELSE prop, "read_error", e, [esr |-> o.esr, want |-> m.ref.log])
   ELSE IF o.st # RefSt(m.ref)
   THEN Viol(m, prop, "state_mismatch", e, [got |-> o.st, want |-> RefSt(m.ref)])
   ELSE IF o.es # m.ref.log
-  THEN Viol(m, IF prop = "C01" THEN ReadProp(m) ELSE prop, "entries_mismatch", e, [got |-> o.es, want |-> m.ref.log])
+  THEN Viol(m, IF prop \in {"C01", "C06"} THEN ReadProp(m) ELSE prop, "entries_mismatch", e, [got |-> o.es, want |-> m.ref.log])
   ELSE m
 
 -----------------------------------------------------------------------------
@@ -281,7 +282,8 @@ PlaceEntries(r, es, off, newcks, ul) ==
            r2 == AppendOne(r, e)
            end == off + AppSize(e)
            next == IF end \in newcks THEN end + StateSize(RefSt(r2), ul) ELSE end
-       IN <<[off |-> off, sz |-> AppSize(e), rec |-> [k |-> "app", id |-> EId(e), p |-> <<e[3], e[4]>>], i |-> e[2]]>>
+       IN <<[off |-> off, sz |-> AppSize(e), rec |-> [k |-> "app", id |-> EId(e), p |-> <<e[3], e[4]>>], i |-> e[2],
+             st |-> RefSt(r2)]>>
           \o PlaceEntries(r2, Tail(es), next, newcks, ul)
 
 \* chunks that have just become obsolete (closed, no live entry stored in them)
@@ -315,8 +317,17 @@ ObligPrefix(cl, upto) ==
 -----------------------------------------------------------------------------
 (* API call begin / return *)
 
+AtLimit(x) == x >= BIG - 1000
+ArgBig(op, a) ==
+  CASE op = "vote"     -> AtLimit(a.v[1]) \/ AtLimit(a.v[2])
+    [] op = "append"   -> \E k \in 1..Len(a.es) : AtLimit(a.es[k][1]) \/ AtLimit(a.es[k][2])
+    [] op = "truncate" -> AtLimit(a.i)
+    [] op \in {"purge", "commit"} -> AtLimit(a.id[1]) \/ AtLimit(a.id[2])
+    [] OTHER -> FALSE
+
 BeginStep(m, e) ==
-  [m EXCEPT !.pend = [op |-> e.op, args |-> e.args], !.newck = <<>>, !.evmoved = FALSE]
+  [m EXCEPT !.pend = [op |-> e.op, args |-> e.args], !.newck = <<>>, !.evmoved = FALSE,
+            !.bigSeen = @ \/ ArgBig(e.op, e.args)]
 
 \* rotation rule (C11): after an accepted write the open chunk is below both limits or is a bare head
 RotationOk(m, o) ==
@@ -332,7 +343,7 @@ WriteReturn(m0, e) ==
       x  == RefApply(m.ref, op, a)
       rc == e.rc
   IN
-  IF rc = "panic" THEN Viol(m, "C16", "panic", e, [op |-> op, args |-> a, res |-> e.res])
+  IF rc = "panic" THEN Viol(m, "C16", "panic", e, [op |-> op, args |-> a, res |-> e.res, at_integer_limit |-> m.bigSeen])
   ELSE IF ~x.legal THEN [Note(m, "outside_legal_history", e) EXCEPT !.tainted = TRUE]
   ELSE IF rc = "ok" /\ ~x.ok /\ op # "append"
        THEN [Note(m, "accepted_what_ref_rejects", e) EXCEPT !.tainted = TRUE]
@@ -353,7 +364,7 @@ WriteReturn(m0, e) ==
       placed == IF op = "append"
                 THEN PlaceEntries(m.ref, SubSeq(a.es, 1, nacc1), m.jend, {m.newck[k] : k \in 1..Len(m.newck)}, ul)
                 ELSE IF nacc1 = 1
-                     THEN <<[off |-> e.seg[1], sz |-> e.seg[2], rec |-> RecOf(m, op, a, ref1), i |-> -1]>>
+                     THEN <<[off |-> e.seg[1], sz |-> e.seg[2], rec |-> RecOf(m, op, a, ref1), i |-> -1, st |-> RefSt(ref1)]>>
                      ELSE <<>>
       openc == o.chunks[Len(o.chunks)]
       jend1 == IF nacc1 = 0 THEN m.jend ELSE openc[4]
@@ -367,7 +378,10 @@ WriteReturn(m0, e) ==
                                      ~\E q \in 1..Len(placed) : placed[q].i = l.i)
                   added == [q \in 1..Len(placed) |-> [i |-> placed[q].i, off |-> placed[q].off]]
               IN IF op = "append" THEN kept \o SelectSeq(added, LAMBDA l : HasIdx(ref1, l.i)) ELSE kept
-      heads1 == m.heads \o [k \in 1..Len(m.newck) |-> [ck |-> m.newck[k], st |-> RefSt(ref1)]]
+      \* the head snapshot of a chunk started during this call = the state after the record that filled the old one
+      headSt(c) == LET S == {q \in 1..Len(placed) : placed[q].off + placed[q].sz = c}
+                   IN IF S = {} THEN RefSt(ref1) ELSE placed[SetMin(S)].st
+      heads1 == m.heads \o [k \in 1..Len(m.newck) |-> [ck |-> m.newck[k], st |-> headSt(m.newck[k])]]
       mA == [m EXCEPT !.ref = ref1, !.nacc = @ + nacc1, !.views = @ \o newviews,
                       !.jr = @ \o [q \in 1..Len(placed) |-> [off |-> placed[q].off, sz |-> placed[q].sz, rec |-> placed[q].rec]],
                       !.jend = jend1, !.loc = loc1, !.heads = heads1, !.newck = <<>>,
@@ -394,7 +408,7 @@ WriteReturn(m0, e) ==
                                [seg |-> e.seg, record_at |-> <<lastp.off, lastp.sz>>, jend |-> m.jend])
             ELSE IF op # "append" /\ e.seg[1] # m.jend
                  THEN ViolKeep(mC, "C11", "segment_not_at_journal_end", e, [seg |-> e.seg, jend |-> m.jend])
-            ELSE IF Len(m.newck) > 0 /\ ~(recEnd \in newcks)
+            ELSE IF ~(newcks \subseteq {placed[q].off + placed[q].sz : q \in 1..Len(placed)})
                  THEN ViolKeep(mC, "C11", "chunk_name_is_not_its_global_offset", e, [newck |-> m.newck, end |-> recEnd])
             ELSE IF Len(m.newck) = 0 /\ jend1 # recEnd
                  THEN ViolKeep(mC, "C11", "journal_end_not_after_record", e, [seg |-> e.seg, end |-> jend1])
@@ -499,7 +513,7 @@ ReturnStep(m, e) ==
 
 ReadStep(m0, e) ==
   LET m == Cnt(m0, "reads") IN
-  IF e.rc = "panic" THEN Viol(m, "C16", "panic", e, [op |-> "read", from |-> e.from, to |-> e.to])
+  IF e.rc = "panic" THEN Viol(m, "C16", "panic", e, [op |-> "read", from |-> e.from, to |-> e.to, res |-> e.res, at_integer_limit |-> m.bigSeen])
   ELSE IF e.from > e.to /\ e.rc = "ok" /\ e.es = <<>> THEN m
   ELSE IF e.rc # "ok" THEN Viol(m, ReadProp(m), "read_error", e, [from |-> e.from, to |-> e.to, res |-> e.res])
   ELSE IF e.es # Read(m.ref, e.from, e.to)
